@@ -503,7 +503,8 @@ def sig_for(monitor, ops, step, st=None):
         return life_mis
     if monitor == "ActiveListExact" and conf_mis and {"case": "renew_changes_confirmed"} in cases:
         return {"case": "renew_changes_confirmed"}
-    stale = st is not None and any(r["life"] != 0 and not r["armed"] for lst in st["subs"] for r in lst)
+    stale = st is not None and any(r["life"] != 0 and not r["armed"] and cur.get((r["s"], r["p"], r["o"]), (None, 1))[1] == 0
+                                   for lst in st["subs"] for r in lst)
     if st is not None and (st["stuck"] or st["alen"] == -2 or stale) and n_to_0 in cases:
         return n_to_0           # a stale, by now negative, time remaining cannot be encoded: queue blocked / read fails
     if monitor == "Terminates" and n_to_0 in cases:
@@ -706,7 +707,7 @@ def replay_graph(chk, cname, maxlevel, max_walks, rng):
     walks = edge_cover(nodes, edges, init)
     total = len(walks)
     if len(walks) > max_walks:
-        walks = rng.sample(walks, max_walks)
+        walks = sorted(rng.sample(walks, max_walks), key=len)
     out = []
     steps = 0
     for w in walks:
@@ -869,6 +870,10 @@ def main(tier, seed):
         "TLC is exhaustive up to each configuration's level bound only (full configuration: see tlc_runs); the property's "
         "sizes (3 subscribers, lifetimes to 120 s, four object kinds) are covered by validated random timelines",
     ]
+    chk.extra["level_note"] = ("exhaustive TLC on the full configuration of the design row only to depth %d (about x8 states per "
+                               "level; depth 8 is out of budget) -- depth 8..10 is reached on the slices pair / subs / crit, depth 12 on "
+                               "the full configuration by simulation; SubscribeCOVProperty, covPeriod > 0, lost frames / unanswered "
+                               "confirmed notifications and omitted lifetimes are outside this check" % (5 if thorough else 4))
     # D: the design satisfies the properties
     run_mc(chk, "full", 5 if thorough else 4)
     run_mc(chk, "pair", 8 if thorough else 6)
